@@ -91,8 +91,8 @@ def encode(case):
     """-> (input line for chanprvharness, the answer line TLC expects)"""
     tr = "".join({"any": "a", "run": "r", "act": "c", "cpu": "u"}[t] for t in ALLTR if t in case["tracks"]) or "-"
     pr = case["props"]
-    head = "%s %s %s |" % (tr, "".join("1" if b else "0" for b in pr["st"]),
-                           "".join("1" if b else "0" for b in pr["sg"]))
+    head = "%s %s %s %d |" % (tr, "".join("1" if b else "0" for b in pr["st"]),
+                              "".join("1" if b else "0" for b in pr["sg"]), case["nrows"])
     toks, want = [], []
     for c in case["calls"]:
         op = c[0]
@@ -125,6 +125,8 @@ def _classify(case, got, want):
     """signature and a short description of the first disagreement"""
     if got.startswith("CRASH"):
         return "chanprv:crash", "the code died (%s)" % got
+    if got.startswith("SETUP"):
+        return "chanprv:setup", "the code refused a wiring call the model takes for granted (%s)" % got
     g, w = [x.strip() for x in got.split("|")], [x.strip() for x in want.split("|")]
     if len(g) != 3:
         return "chanprv:output", "unparseable answer"
@@ -181,7 +183,7 @@ def replay(ck, bdir, cases, label):
                 continue
             sig, what = _classify(case, got, want)
             ck.violation("real chan/bay/prv/track disagree with ChanPrv.tla (%s): %s\n"
-                         "sequence (tracks props | calls): %s\ncode : %s\nmodel: %s"
+                         "sequence (tracks props nrows | calls): %s\ncode : %s\nmodel: %s"
                          % (label, what, enc[j][0], got, want),
                          {"case.json": case, "input.txt": enc[j][0] + "\n", "got.txt": got + "\n",
                           "want.txt": want + "\n"}, sig=sig)
